@@ -27,13 +27,20 @@
     Definitions only; proofs are in Mem/Proofs.v. *)
 From Verif Require Import Mem.GoStore.
 
-Inductive slot := SVal (v : val) | SRef (p : path).
+(** [SBox]: an operand converted to interface{}: the conversion happens when the consumer does
+    [Set] (reflect copies the concrete value into the interface), so the operand slot is still the
+    aliasing or detached Value of the concrete expression *)
+Inductive slot := SVal (v : val) | SRef (p : path) | SBox (tag : nat) (s : slot).
 
 (** a destination as the assign builtin sees it: an aliasing Value, or the operand slots of a map entry *)
 Inductive ydest := DRef (p : path) | DMap (m k : slot).
 
-Definition slot_get (h : heap) (s : slot) : option val :=
-  match s with SVal v => Some v | SRef p => read h p end.
+Fixpoint slot_get (h : heap) (s : slot) : option val :=
+  match s with
+  | SVal v => Some v
+  | SRef p => read h p
+  | SBox tag s' => v <- slot_get h s' ;; Some (VBox tag v)
+  end.
 
 Fixpoint slots_get (h : heap) (ss : list slot) : option (list val) :=
   match ss with
@@ -113,6 +120,10 @@ with y_rv (h : heap) (e : env) (x : rv) {struct x} : option slot :=
       | VNil, VInt _ => Some (SVal zero)
       | _, _ => None
       end
+  | RBox tag x => s <- y_rv h e x ;; Some (SBox tag s)   (* empty interface destination: genValue, no wrapping *)
+  | RUnbox tag x =>                                          (* typeAssert: the concrete value is copied out *)
+      s <- y_rv h e x ;; v <- slot_get h s ;;
+      match v with VBox tag' w => if Nat.eqb tag tag' then Some (SVal w) else None | _ => None end
   end
 with y_rvs (h : heap) (e : env) (xs : rvs) {struct xs} : option (list slot) :=
   match xs with
@@ -222,6 +233,7 @@ Definition pair_direct (l : lv) (r : rv) : bool :=
   match r with
   | RLen _ | RCap _ => negb (is_map_entry l)                (* isCall(src) *)
   | RStruct _ | RArr _ => is_var l                          (* aCompositeLit, dest not aGetIndex / aStar *)
+  | RBox _ (RStruct _) | RBox _ (RArr _) => is_var l        (* the same literal assigned to an interface variable *)
   | _ => false
   end.
 
@@ -373,7 +385,7 @@ with y_ops (grow : growth) (s : st) (os : ops) {struct os} : res :=
 Fixpoint no_map_entry (ls : list lv) : bool :=
   match ls with [] => true | l :: r => negb (is_map_entry l) && no_map_entry r end.
 
-Definition is_load (x : rv) : bool := match x with RLoad _ => true | _ => false end.
+Fixpoint is_load (x : rv) : bool := match x with RLoad _ => true | RBox _ y => is_load y | _ => false end.
 Fixpoint no_loads (xs : rvs) : bool :=
   match xs with RNone => true | RCons x r => negb (is_load x) && no_loads r end.
 (** append(s, e1, ..., en): e2 .. en are not plain reads of variables, elements or fields *)
